@@ -150,13 +150,23 @@ def logged_run(amp, rows, prms):
 def isolated(rows, prms):
     with warnings.catch_warnings():
         warnings.simplefilter('ignore')
-        ref = metamorph.observe(scenes.run_scene(rows, prms, frame=frame_of(rows)))
+        return metamorph.observe(scenes.run_scene(rows, prms, frame=frame_of(rows)))
+
+
+def local_logs(amp, specs):
+    """Reference kernel logs: every chunk of the set run alone, one after the other, in THIS process (twice; the second log
+    counts, so that anything a third-party library asks of np.percentile the first time one of its code paths is taken - it
+    differs between a spawned and a forked interpreter - is out of the comparison)."""
+    out = []
+    for rows, prms in specs:
         try:
-            import ampycloud as amp
-            ref['kernel_args'] = logged_run(amp, rows, prms)[1]
+            with warnings.catch_warnings():
+                warnings.simplefilter('ignore')
+                logged_run(amp, rows, prms)
+                out.append(logged_run(amp, rows, prms)[1])
         except Exception as e:
-            ref['kernel_args'] = f'{type(e).__name__}'
-        return ref
+            out.append(f'{type(e).__name__}')
+    return out
 
 
 def apply(chunk, op):
@@ -283,6 +293,7 @@ def _threads(args):
     seed, k, n, mode, refs = args
     amp = common.import_ampycloud()
     specs = make_chunks(seed, k, n)
+    klocal = local_logs(amp, specs)
     results = [None] * n
     errors = [None] * n
     baton = Baton(n, f'{seed}:{k}', 0.02) if mode == 'baton' else None
@@ -323,10 +334,34 @@ def _threads(args):
         elif results[i] is None:
             bad.append((i, 'thread did not finish'))
         else:
-            ref = {key: refs[i][key] for key in results[i]}
+            ref = {key: (klocal[i] if key == 'kernel_args' else refs[i][key]) for key in results[i]}
             if results[i] != ref:
                 bad.append((i, [key for key in ref if results[i][key] != ref[key]]))
     return {'k': k, 'mode': mode, 'bad': bad, 'switches': baton.switches if baton else None}
+
+
+def systematic_set(seed):
+    """The pair of chunks for the line-by-line pre-emption: the first set (distinct hits, distinct per-call parameters) in
+    which BOTH chunks have a group that the mixture really splits, so that every line of the layering - the separation test
+    of the sub-layers included - is on the path of both threads."""
+    amp = common.import_ampycloud()
+    for kk in range(200, 260, 2):
+        if kk % 5 in (2, 3):
+            continue
+        try:
+            ok = True
+            for rows, prms in make_chunks(seed, kk, 2):
+                with warnings.catch_warnings():
+                    warnings.simplefilter('ignore')
+                    c = amp.run(frame_of(rows), prms=dict(prms))
+                if not (c.groups is not None and len(c.groups) and (c.groups['ncomp'] > 1).any()):
+                    ok = False
+                    break
+            if ok:
+                return kk
+        except Exception:
+            continue
+    return 200
 
 
 def _locations(spec, root):
@@ -361,6 +396,7 @@ def _systematic(args):
     seed, k, locs, refs = args
     amp = common.import_ampycloud()
     specs = make_chunks(seed, k, 2)
+    klocal = local_logs(amp, specs)
     root = str(common.REPO / 'src' / 'ampycloud')
     bad = []
     for who in (0, 1):
@@ -409,7 +445,7 @@ def _systematic(args):
             ta.join(timeout=300)
             for tag, idx in (('a', a), ('b', b)):
                 got = out.get(tag)
-                ref = {key: refs[idx][key] for key in got} if isinstance(got, dict) else None
+                ref = {key: (klocal[idx] if key == 'kernel_args' else refs[idx][key]) for key in got} if isinstance(got, dict) else None
                 if got != ref:
                     what = got if not isinstance(got, dict) else [key for key in got if got[key] != ref[key]]
                     bad.append((who, [os.path.basename(loc[0]), loc[1]], idx, what))
@@ -431,7 +467,9 @@ def run(chk):
     n_thr = 24 if quick else 400
     # isolated references: every chunk alone in a fresh interpreter
     import multiprocessing
-    need = [(k, n_chunks) for k in range(n_sets)] + [(100 + j, 2 + j % 2) for j in range(n_thr)] + [(200, 2)]
+    ksys = systematic_set(chk.seed)
+    chk.extra['systematic_set'] = ksys
+    need = [(k, n_chunks) for k in range(n_sets)] + [(100 + j, 2 + j % 2) for j in range(n_thr)] + [(ksys, 2)]
     ref_tasks = [(chk.seed, k, n, j) for k, n in need for j in range(n)]
     with multiprocessing.get_context('spawn').Pool(16, maxtasksperchild=1) as fp:
         fresh = fp.map(_fresh_ref, ref_tasks, chunksize=1)
@@ -448,11 +486,11 @@ def run(chk):
     thr_tasks = [(chk.seed, 100 + j, 2 + j % 2, 'baton' if j % 3 else 'free', refs_of[100 + j]) for j in range(n_thr)]
     # systematic pre-emption: pause one thread before each distinct source line of ampycloud it executes
     root = str(common.REPO / 'src' / 'ampycloud')
-    all_locs = _locations(make_chunks(chk.seed, 200, 2)[0], root)
+    all_locs = _locations(make_chunks(chk.seed, ksys, 2)[0], root)
     small = [l for l in all_locs if not l[0].endswith(os.sep + 'data.py') and not l[0].endswith('logger.py')]
     big = [l for l in all_locs if l[0].endswith(os.sep + 'data.py')]
     locs = small + (chk.rng.sample(big, min(len(big), 60)) if quick else big)
-    sys_tasks = [(chk.seed, 200, locs[i::16], refs_of[200]) for i in range(16)]
+    sys_tasks = [(chk.seed, ksys, locs[i::16], refs_of[ksys]) for i in range(16)]
     with Pool(16) as pool:
         inter = pool.map(_interleave, tasks, chunksize=1)
         thr = pool.map(_threads, thr_tasks, chunksize=1)
